@@ -75,6 +75,9 @@ func guardedMapEntry(c *Ctx, info *types.Info, ix *ast.IndexExpr, stack []ast.No
 			continue
 		}
 		x, y := unparen(b.X), unparen(b.Y)
+		if id, ok := x.(*ast.Ident); ok && id.Name == "nil" {
+			x, y = y, x
+		}
 		if id, ok := y.(*ast.Ident); !ok || id.Name != "nil" {
 			continue
 		}
